@@ -296,6 +296,28 @@ def qap_matrices(draw: Any, min_n: int = 1, max_n: int = 8) -> dict:
             else:
                 di = [0] * n2
                 fl[draw(st.integers(0, n2 - 1))] = big
+    shape = "as_drawn"
+    if cls != "edge" and n >= 2:
+        # most QAPLIB instances are symmetric; "almost": mirrored entries
+        # that differ by a few units only (also between large values)
+        shape = draw(st.sampled_from(["as_drawn", "as_drawn", "symmetric",
+                                      "almost_symmetric"]))
+    if shape != "as_drawn":
+        for vec in (fl, di):
+            for i in range(n):
+                for j in range(i):
+                    vec[i * n + j] = vec[j * n + i]
+        if shape == "almost_symmetric":
+            for vec in ((fl, di), (di,), (fl,))[draw(st.integers(0, 2))]:
+                for _ in range(draw(st.integers(1, 3))):
+                    i = draw(st.integers(1, n - 1))
+                    j = draw(st.integers(0, i - 1))
+                    delta = draw(st.integers(1, 25))
+                    if vec[i * n + j] >= delta:  # stays within the caps
+                        vec[i * n + j] -= delta
+                    else:
+                        vec[i * n + j] = 0
+        cls = f"{cls}/{shape}"
     flows = [fl[i * n:(i + 1) * n] for i in range(n)]
     dists = [di[i * n:(i + 1) * n] for i in range(n)]
     mxd, mxf = max(di), max(fl)
